@@ -35,6 +35,8 @@ type Client struct {
 	helloError error             // the error from the hello
 	rcpts      []string          // recipients accumulated for the current session
 
+	lineLimitReader *lineLimitReader
+
 	// Time to wait for command responses (this includes 3xx reply to DATA).
 	CommandTimeout time.Duration
 	// Time to wait for responses after final dot.
@@ -154,11 +156,12 @@ func (c *Client) setConn(conn net.Conn) {
 	var r io.Reader = conn
 	var w io.Writer = conn
 
-	r = &lineLimitReader{
+	c.lineLimitReader = &lineLimitReader{
 		R: conn,
 		// Doubled maximum line length per RFC 5321 (Section 4.5.3.1.6)
 		LineLimit: 2000,
 	}
+	r = c.lineLimitReader
 
 	r = io.TeeReader(r, clientDebugWriter{c})
 	w = io.MultiWriter(w, clientDebugWriter{c})
@@ -242,6 +245,11 @@ func (c *Client) Hello(localName string) error {
 
 func (c *Client) readResponse(expectCode int) (int, string, error) {
 	code, msg, err := c.text.ReadResponse(expectCode)
+	if c.lineLimitReader.exceeded() {
+		// The buffered reader hands out the part of the line it had already
+		// collected and drops the limiter's error.
+		return 0, "", ErrTooLongLine
+	}
 	if protoErr, ok := err.(*textproto.Error); ok {
 		err = toSMTPErr(protoErr)
 	}
